@@ -28,6 +28,14 @@ def mk_tree(rng, cont=False):
     t.data['sid'] = rng.randint(1, 999)
     if rng.random() < 0.3:
         t.data['edge'] = rng.choice(["XX", None, "HD"])      # the root's own edge label: no format writes it
+    if rng.random() < 0.3:
+        # a tag that is also a category (ADV, NP, S ...), on a token that carries the same edge label as a constituent
+        cons = [n for n in trees.preorder(t) if n.children and n is not t]
+        toks = trees.unordered_terminals(t)
+        if cons and toks:
+            c, x = rng.choice(cons), rng.choice(toks)
+            x.data['label'] = c.data['label']
+            x.data['edge'] = c.data.get('edge')
     mode = rng.random()
     for n in trees.preorder(t):
         if mode < 0.6:
